@@ -15,6 +15,7 @@ import difflib
 import logging
 import os
 import typing
+import uuid
 
 import pydantic.typing
 import re
@@ -638,8 +639,7 @@ class FlowIRExperimentConfiguration:
 
         if create_instance_files and (exists_manifest is False or update_instance_files is True):
             try:
-                with open(manifest_file, 'w') as f:
-                    experiment.model.frontends.flowir.yaml_dump(self.manifestData, f)
+                self._yaml_dump_atomically(self.manifestData, manifest_file)
             except Exception as e:
                 out_errors.append(e)
 
@@ -684,14 +684,30 @@ class FlowIRExperimentConfiguration:
         This is version of FlowIR without any component replication
         """
         instance_file = os.path.join(self._conf_dir, 'flowir_instance.yaml')
-        with open(instance_file, 'w') as f:
-            primitive = self._unreplicated.instance(ignore_errors=True, inject_missing_fields=False,
-                                                    fill_in_all=False, is_primitive=True)
-            # primitive = experiment.model.frontends.flowir.FlowIR.compress_flowir(primitive)
-            pretty_primitive = experiment.model.frontends.flowir.FlowIR.pretty_flowir_sort(primitive)
-            experiment.model.frontends.flowir.yaml_dump(
-                pretty_primitive, f, sort_keys=False, default_flow_style=False
-            )
+        primitive = self._unreplicated.instance(ignore_errors=True, inject_missing_fields=False,
+                                                fill_in_all=False, is_primitive=True)
+        # primitive = experiment.model.frontends.flowir.FlowIR.compress_flowir(primitive)
+        pretty_primitive = experiment.model.frontends.flowir.FlowIR.pretty_flowir_sort(primitive)
+        self._yaml_dump_atomically(pretty_primitive, instance_file, sort_keys=False, default_flow_style=False)
+
+    @classmethod
+    def _yaml_dump_atomically(cls, data, path, **kwargs):
+        """Dumps data as YAML to a temporary file next to path and then renames it over path.
+
+        A crash or an I/O error while writing leaves the previous version of path intact (this method is
+        called again after every iteration of a DoWhile, while the experiment is running).
+        """
+        tempname = os.path.join(os.path.dirname(path), str(uuid.uuid4()))
+        try:
+            with open(tempname, 'w') as f:
+                experiment.model.frontends.flowir.yaml_dump(data, f, **kwargs)
+            os.replace(tempname, path)
+        except Exception:
+            try:
+                os.remove(tempname)
+            except OSError:
+                pass
+            raise
 
     @property
     def configurationDirectory(self):
